@@ -197,14 +197,33 @@ Proof.
 Qed.
 
 (* ---------- the stand-alone helper is the same rule, row by row ---------- *)
-Lemma integral_rows d M : integral d (A2 M) true = Ok (A1 (map (integ d true) M)).
+Lemma integral_rows d M : integral d (A2 M) 1 = Ok (A1 (map (integ d true) M)).
 Proof. reflexivity. Qed.
-Lemma integral_vec d v : integral d (A1 v) true = Ok (A0 (integ d true v)).
+Lemma integral_vec d v : integral d (A1 v) 0 = Ok (A0 (integ d true v)).
 Proof. reflexivity. Qed.
-Lemma integral_cols_entry d M j : (j < ncols M)%nat ->
-  exists r, integral d (A2 M) false = Ok (A1 r) /\ nthQ r j = integ d true (column M j).
+Lemma cols_integ_entry d M j : (j < ncols M)%nat -> nthQ (cols_integ d M) j = integ d true (column M j).
 Proof.
-  intros Hj. eexists; split; [reflexivity|]. unfold nthQ.
+  intros Hj. unfold nthQ, cols_integ.
   rewrite (@nth_map_lt nat Q (fun j => integ d true (column M j)) (seq 0 (ncols M)) j 0 0%nat) by (rewrite seq_length; auto).
   rewrite seq_nth by auto. reflexivity.
+Qed.
+Lemma integral_cols_entry d M j : (j < ncols M)%nat ->
+  exists r, integral d (A2 M) 0 = Ok (A1 r) /\ nthQ r j = integ d true (column M j).
+Proof. intros Hj. eexists; split; [reflexivity|]. apply cols_integ_entry; auto. Qed.
+(* rank 3: integrating along the last / middle axis leaves the other two in order *)
+Lemma integral3_last d T : integral d (A3 T) 2 = Ok (A2 (map (map (integ d true)) T)).
+Proof. reflexivity. Qed.
+Lemma integral3_middle d T : integral d (A3 T) 1 = Ok (A2 (map (cols_integ d) T)).
+Proof. reflexivity. Qed.
+Lemma nth_map_seq {B} (f : nat -> B) n j d : (j < n)%nat -> nth j (map f (seq 0 n)) d = f j.
+Proof. intros H. rewrite (nth_map_lt f (seq 0 n) j d 0%nat) by (rewrite seq_length; auto). rewrite seq_nth by auto. reflexivity. Qed.
+Lemma integral3_first_entry d T j k : (j < length (nth 0 T []))%nat -> (k < ncols (nth 0 T []))%nat ->
+  exists R, integral d (A3 T) 0 = Ok (A2 R) /\
+    nthQ (nthV R j) k = integ d true (map (fun M => nthQ (nthV M j) k) T).
+Proof.
+  intros Hj Hk. eexists; split; [reflexivity|]. unfold nthV at 1, nthQ at 1.
+  set (f := fun j0 : nat => map (fun k0 : nat => integ d true (map (fun M : mat => nthQ (nthV M j0) k0) T)) (seq 0 (ncols (nth 0 T [])))).
+  assert (E : nth j (map f (seq 0 (length (nth 0 T [])))) [] = f j) by (apply nth_map_seq; auto).
+  etransitivity; [apply (f_equal (fun r : list Q => nth k r 0)); exact E|].
+  unfold f. apply (nth_map_seq (fun k0 : nat => integ d true (map (fun M : mat => nthQ (nthV M j) k0) T))); auto.
 Qed.
